@@ -354,3 +354,63 @@ Proof.
   destruct (final_statuses c' st0' clk' s' W' R' M' t ltac:(lia)) as [-> _].
   symmetry. apply spec_status_ext; auto.
 Qed.
+
+(* ================= non-vacuity: a concrete complete run ================= *)
+Module NonVacuity.
+
+(* 0 <- 1 <- 2 (hard dependencies); task 0 succeeds with an update, task 1 fails *)
+Definition dp (t : nat) : list nat := match t with 1 => [0] | 2 => [1] | _ => [] end.
+Definition c3 : cfg :=
+  mkCfg 3 dp dp (Some [0; 1; 2]) 2
+        (fun t => match t with 0 => mkO true true | 1 => mkO false false | _ => mkO true true end).
+
+Lemma c3_wf : wf_cfg c3.
+Proof.
+  exists [0; 1; 2]. split; [reflexivity|]. split.
+  { repeat constructor; simpl; intuition discriminate. }
+  split. { intro t. simpl. split; [intros [<-|[<-|[<-|[]]]]; lia|]. intro. do 3 (destruct t as [|t]; auto). lia. }
+  split. { intros t d Hd Ht. simpl in Ht. destruct Ht as [<-|[<-|[<-|[]]]]; simpl in Hd;
+           try destruct Hd as [<-|[]]; try destruct Hd; simpl; auto. }
+  split; [auto|simpl; lia].
+Qed.
+
+(* greedy scheduler: first enabled thread, master first; clocks do not move *)
+Definition pick_now (s : state) (tid : nat) : list nat :=
+  match tid with
+  | 0 => []
+  | S w => match wp s w with
+           | WGet => match queue s with Some _ :: _ => [clock s] | _ => [] end
+           | WStart _ _ => [clock s]
+           | _ => []
+           end
+  end.
+
+Fixpoint greedy (c : cfg) (fuel : nat) (s : state) : list (nat * list nat) :=
+  match fuel with
+  | 0 => []
+  | S f =>
+      match find (enabled c s) (seq 0 (S (nworkers c))) with
+      | Some tid =>
+          match step c s tid (pick_now s tid) with
+          | Some s' => (tid, pick_now s tid) :: greedy c f s'
+          | None => []
+          end
+      | None => []
+      end
+  end.
+
+Definition s0 : state := init c3 (fun _ => no_entry) (fun _ => 0) 0.
+Definition sched3 : list (nat * list nat) := greedy c3 200 s0.
+
+Example complete_run :
+  exists s, run c3 s0 sched3 = Some s /\ mp s = MReturned
+            /\ est (env s 0) = Some DONE /\ est (env s 1) = Some FAILED /\ est (env s 2) = Some SKIPPED
+            /\ started s 0 = 1 /\ started s 1 = 1 /\ started s 2 = 0
+            /\ length sched3 = 50.
+Proof. eexists. split; [vm_compute; reflexivity|]. vm_compute. repeat split. Qed.
+
+Example spec3 : spec_status c3 0 = Some DONE /\ spec_status c3 1 = Some FAILED
+                /\ spec_status c3 2 = Some SKIPPED.
+Proof. vm_compute. repeat split. Qed.
+
+End NonVacuity.
